@@ -3,6 +3,7 @@
    shape (list nat); axes are numbered from 0. *)
 From Coq Require Import List Arith Bool ZArith.
 From QV.Core Require Import OF.
+From QV.Model Require Import IndexUtil.
 Import ListNotations.
 
 Section Multinomial.
@@ -51,6 +52,16 @@ Definition construct (tol eps : F) (ps : list F) (shape : option (list nat)) : m
          end
   end.
 
+(* the eps_zero ARGUMENT of __init__:  self._eps_zero = eps_zero if eps_zero else 1e-8
+   (None and the falsy value 0.0 select the default [dflt] = 1e-8) *)
+Definition eff_eps (dflt : F) (eps_zero : option F) : F :=
+  match eps_zero with
+  | None => dflt
+  | Some e => if kleb F e 0 && kleb F 0 e then dflt else e
+  end.
+Definition construct_arg (tol dflt : F) (ps : list F) (shape : option (list nat)) (eps_zero : option F) : mres dist :=
+  construct tol (eff_eps dflt eps_zero) ps shape.
+
 (* multi-index helpers on nat (row-major) *)
 Fixpoint digitsn (shape : list nat) (k : nat) : list nat :=
   match shape with [] => [] | n :: t => ((k / prodn t) mod n)%nat :: digitsn t k end.
@@ -73,14 +84,25 @@ Definition marg_raw (shape : list nat) (ps : list F) (keep : list bool) : list F
 Fixpoint has_dup (l : list nat) : bool :=
   match l with [] => false | x :: t => existsb (Nat.eqb x) t || has_dup t end.
 
-(* marginalize(outcome_indices_remain); indices arrive as Z because Python accepts negatives *)
+(* marginalize(outcome_indices_remain); indices arrive as Z because Python accepts negatives.
+   The listed indices are examined IN ORDER: out of range -> ValueError (4); an index listed twice -> the second
+   axis.remove(index) raises KeyError (5).  Whichever comes first in the list decides. *)
+Fixpoint remain_check (nax : nat) (seen : list nat) (remain : list Z) : option nat :=
+  match remain with
+  | [] => None
+  | i :: t => if (i <? 0)%Z || (Z.of_nat nax <=? i)%Z then Some 4%nat
+              else if existsb (Nat.eqb (Z.to_nat i)) seen then Some 5%nat
+              else remain_check nax (Z.to_nat i :: seen) t
+  end.
 Definition marginalize (tol : F) (d : dist) (remain : list Z) : mres dist :=
   let nax := length (d_shape d) in
-  if existsb (fun i => (i <? 0)%Z || (Z.of_nat nax <=? i)%Z) remain then MErr 4 else
-  let rem := map Z.to_nat remain in
-  if has_dup rem then MErr 5 else
-  let keep := map (fun a => existsb (Nat.eqb a) rem) (seq 0 nax) in
-  construct tol tol (marg_raw (d_shape d) (d_ps d) keep) (Some (select keep (d_shape d))).
+  match remain_check nax [] remain with
+  | Some c => MErr c
+  | None =>
+    let rem := map Z.to_nat remain in
+    let keep := map (fun a => existsb (Nat.eqb a) rem) (seq 0 nax) in
+    construct tol tol (marg_raw (d_shape d) (d_ps d) keep) (Some (select keep (d_shape d)))
+  end.
 
 (* conditionalize(indices, values) *)
 Fixpoint assign (cur : list (option nat)) (i v : nat) : list (option nat) :=
@@ -114,5 +136,29 @@ Definition conditionalize (tol : F) (d : dist) (idxs vals : list Z) : mres dist 
   construct tol tol (map (fun p => p / tot) sel) (Some newshape).
 
 Definition getitem (d : dist) (idx : list nat) : F := nth (rowmajorn (d_shape d) idx) (d_ps d) 0.
+
+(* __getitem__(idx) / StateEnsemble.state(outcome) as coded: the argument is an int (plain sequence index, negative
+   values count from the end, IndexError (9) outside), a tuple (serial index through index_util — ValueError (2) on a rank
+   mismatch — then the same sequence access; the individual components are NOT range-checked), or anything else (TypeError, 10) *)
+Definition seq_pos (n i : Z) : option nat :=
+  if (0 <=? i)%Z && (i <? n)%Z then Some (Z.to_nat i)
+  else if (i <? 0)%Z && (0 <=? n + i)%Z then Some (Z.to_nat (n + i))
+  else None.
+Inductive index_arg := AInt (i : Z) | ATuple (t : list Z) | AOther.
+Definition resolve_index (n : Z) (shape : list Z) (a : index_arg) : mres nat :=
+  match a with
+  | AInt i => match seq_pos n i with Some k => MOk k | None => MErr 9 end
+  | ATuple t => match serial_from_multi shape t with
+                | None => MErr 2
+                | Some s => match seq_pos n s with Some k => MOk k | None => MErr 9 end
+                end
+  | AOther => MErr 10
+  end.
+Definition index_get {A} (l : list A) (shape : list Z) (a : index_arg) : mres A :=
+  match resolve_index (Z.of_nat (length l)) shape a with
+  | MErr c => MErr c
+  | MOk k => match nth_error l k with Some v => MOk v | None => MErr 9 end
+  end.
 End Multinomial.
+Arguments seq_pos n i : assert. Arguments resolve_index n shape a : assert. Arguments index_get {A} l shape a.
 Arguments MOk {A} a. Arguments MErr {A} code.
